@@ -40,10 +40,12 @@ Print Assumptions C08_duplicate.
 Theorem C08_unknown_skipped : forall es slots e,
   slot_of es slots (w_id e) = None -> apply_entry es slots e = inl slots.
 Proof. exact apply_entry_unknown. Qed.
+Print Assumptions C08_unknown_skipped.
 
 Theorem C08_deleted_skipped : forall es slots e t' sl,
   slot_of es slots (w_id e) = Some (false, t', sl) -> apply_entry es slots e = inl slots.
 Proof. exact apply_entry_deleted. Qed.
+Print Assumptions C08_deleted_skipped.
 
 (* declared size smaller than the value needs: the read fails *)
 Theorem C08_short_size : forall es slots eid t' y k,
